@@ -834,8 +834,8 @@ func init() {
 			"then seeded random chains of up to 9 layers (at most 5 nesting forms) with guards (exit taken on the Nth evaluation inside loops), a second exit after the first has landed, " +
 			"side trees with their own self-contained exits in sibling and cleanup positions, input and output streams; 1 in 8 random programs ignores the avoid set. " +
 			"distinct = distinct program text; non-trivial = the oracle judges the program and its trace has at least 2 markers. " +
-			"avoid set: the " + fmt.Sprint(len(keys)) + " (exit kind, cell) constructs still listed open in findings/C07.json (mapc/mapl/maplist lambda bodies, return in a prog init form, go with no lexical target; counter avoided:...); " +
-			"the 110 cells repaired in /repo are back in the clean stream; exits out of unwind-protect cleanup forms and return-from value forms are outside the property and not judged",
+			"avoid set: the " + fmt.Sprint(len(keys)) + " (exit kind, cell) construct still listed open in findings/C07.json (go in a global function with no lexical target; counter avoided:...); " +
+			"every cell repaired in /repo is in the clean stream; exits out of unwind-protect cleanup forms and return-from value forms are outside the property and not judged",
 		N:        nCases,
 		Gen:      gen,
 		Exec:     exec,
